@@ -339,6 +339,9 @@ func runWorker(prop, tier string, base uint64, wi, nw, runs int, budget time.Dur
 		if len(o.Violations) > 0 && len(out.Violations) < maxViol {
 			fv := reportViolation(c, o, replayDir)
 			out.Violations = append(out.Violations, fv)
+			if len(out.Violations) >= maxViol {
+				break // enough to fail the check; do not burn the budget
+			}
 		}
 	}
 }
